@@ -612,6 +612,8 @@ def _only_deadline_uses(ctx, f: Func, var: str, depth: int) -> bool:
                 pp = getattr(p, "_parent", None)
                 if isinstance(pp, ast.Call) and p in pp.args:
                     p, child = pp, p
+                elif isinstance(pp, ast.Assign) and pp.value is p and all(norm(t).endswith(".start_time") or "deadline" in norm(t).split(".")[-1] for t in pp.targets):
+                    continue  # `self.start_time = clock() if started is None else started`
             if isinstance(p, ast.Call) and child in p.args:
                 cs = ctx.cg.site_of_call.get(id(p))
                 if cs is not None and cs.kind == "resolved" and cs.targets:
